@@ -37,6 +37,7 @@ def shape_ok(m: Any, form: str) -> bool:
 
 def oracle(ctx: core.Ctx, recs: list[dict[str, Any]], envs: list[dict[str, Any]]) -> None:
     texts: list[tuple[dict[str, Any], str]] = []
+    bits_of: dict[int, str] = {}
     for rec in recs:
         case = rec["case"]
         k, op, a = case["kind"], case.get("op"), case["a"]
@@ -84,13 +85,34 @@ def oracle(ctx: core.Ctx, recs: list[dict[str, Any]], envs: list[dict[str, Any]]
             ctx.violate(KNOWN_NOTIN if notin_class(text) else f"text-differs:{op}:{a}|{case.get('b', '')}", f"text {text!r} evaluates differently from the marker it came from", wit)
             continue
         texts.append((wit, text))
+        bits_of[id(wit)] = rec["bits"]
     if texts:
         ref = MC.ref_batch([{"op": "mtok", "s": t, "envs": envs} for _, t in texts])
         for (wit, text), rf in zip(texts, ref):
             if rf[0] != "ok":
                 ctx.violate(f"ref-rejects:{text}", f"text {text!r} is rejected by the PEP 508 reference parser ({rf})", wit)
-            else:
-                ctx.count("ref-accepts")
+                continue
+            ctx.count("ref-accepts")
+            # ... and evaluates identically under the reference evaluator (token reading of lists, set-valued extras)
+            from . import c06
+            xr = MC.split_bits(bits_of[id(wit)])
+            bad = [j for j, (tv, _pv) in enumerate(rf[1]) if tv is not None and xr[j] in "01" and (xr[j] == "1") != tv]
+            if not bad:
+                ctx.count("ref-evaluates-identically")
+                continue
+            if not c06.in_c06_domain(text):
+                # the operands are in the domain; a result whose text left it and means something else to the reference
+                # is what the property excludes ("evaluates identically to the marker it came from")
+                ctx.count("ref-eval:result-text-outside-c06-domain")
+                OUTSIDE.append(text)
+            key = (c06.KNOWN_PFV2 if c06.pfv2_list(text) else c06.KNOWN_WS if c06.ws_literal(text) else
+                   c06.KNOWN_NOTIN if c06.two_notin_alternatives(text) else f"ref-evaluates-differently:{text}")
+            e = envs[bad[0]]
+            ctx.violate(key, f"text {text!r} (result of {wit.get('op')} on {wit.get('a')!r}): the reference evaluates {rf[1][bad[0]][0]} on "
+                             f"{e.get('python_full_version')}/{e.get('sys_platform')}/{e.get('extra')}, the marker it came from {xr[bad[0]] == '1'}", {**wit, "env": e})
+
+
+OUTSIDE: list[str] = []   # result texts outside the C06 domain on which the reference evaluates differently (debug aid)
 
 
 def cases_for(a: str, b: str | None) -> list[dict[str, Any]]:
@@ -164,6 +186,15 @@ def search(ctx: core.Ctx) -> None:
             seeds.append((c["a"], c.get("b")))
     if seeds:
         run(ctx, seeds[:200], "search-disagreeing", envs=G.envs())
+    # disagreements met in a call-history stream: repeat each one after the calls that preceded it
+    done = 0
+    for d in ctx.disagreements:
+        i = d["input"]
+        c = i.get("case", i) if isinstance(i, dict) else None
+        if c and c.get("history") and done < 40 and not ctx.violations:
+            done += 1
+            hist = [(x[0], x[1]) for x in c["history"]]
+            run(ctx, hist + [(c["a"], c.get("b"))], "search-history", envs=G.envs(), keep_caches=True)
     if not ctx.violations:
         items = gen_items(ctx, 1200)
         for k in range(0, len(items), 300):
